@@ -217,3 +217,15 @@ Definition concatenate_gen (chk lfix : bool) (files : list (list Z)) (per_batch 
   | RThrow e => RThrow e
   | ROutOfFuel => ROutOfFuel
   end.
+
+(* pybes3.concatenate_raw(<pattern>): glob.glob hands the matching files over in directory-enumeration order - SOME order of the
+   directory's (name, content) pairs - and the reader sorts them by name before reading.  A name is modelled by a number: any
+   order embedding of the path strings (Python compares str lexicographically by code point, a strict total order). *)
+Fixpoint insert_by_name (x : Z * list Z) (l : list (Z * list Z)) : list (Z * list Z) :=
+  match l with
+  | [] => [x]
+  | y :: t => if fst x <=? fst y then x :: l else y :: insert_by_name x t
+  end.
+Definition sort_by_name (l : list (Z * list Z)) : list (Z * list Z) := fold_right insert_by_name [] l.
+Definition concatenate_pattern (chk lfix : bool) (listing : list (Z * list Z)) (per_batch : Z) (names : list (option det)) : rres result :=
+  concatenate_gen chk lfix (map snd (sort_by_name listing)) per_batch names.
